@@ -26,6 +26,7 @@ func noopPkg(path string) bool {
 		path == "github.com/anyproto/any-sync/app/logger",
 		path == "github.com/anyproto/any-sync/app/debugstat",
 		path == "github.com/anyproto/any-sync/metric",
+		path == "github.com/anyproto/any-sync/util/debug",
 		strings.HasPrefix(path, "github.com/prometheus/"),
 		path == "log":
 		return true
